@@ -1224,6 +1224,8 @@ def specs(draw, names: Names | None = None, *, max_depth=3, hashable=False, key=
             # not precede the declaration it points to - for a nested class its text would name nothing)
             if idx[0] != 0:
                 idx = [1 - i for i in idx]
+            if len(pool) == 2 and 1 not in idx:
+                idx[-1] = 1      # every drawn member is used: the classes it declared may already be referred to from elsewhere
             a = [copy.deepcopy(pool[i]) for i in idx]
         else:
             a = [draw(sub(hashable=hashable)) for _ in range(n)]
